@@ -481,6 +481,10 @@ func getVerticalTileIdOnAltitude(alt float64, vZoom int64) string {
 
 	// 垂直方向の位置を計算する
 	vIndex := math.Floor(alt / altResolution)
+	if alt < 0 && vIndex == 0 {
+		// 0に極めて近い負の高さは除算がアンダーフローして-0となるため、地表直下のボクセル(-1)に補正する
+		vIndex = -1
+	}
 
 	// 垂直精度、高さ方向のインデクスをスライスに格納
 	idParams := []string{
